@@ -491,6 +491,19 @@ def _selfcheck():
             out = project(src, dst, cc)
             if not all(math.isfinite(v) for p in out for v in p):
                 raise AssertionError(f"harness: non-finite oracle projection for {src}->{dst} {(ox, oy, step)}")
+    for src, dst, res, places in LPAIRS:
+        for x0, y0 in places:
+            for di in range(len(LDIRS)):
+                cc = list(long_shape("polygon-hole", max(LK), di, x0, y0, res).exterior.coords)
+                ll = cc if src == 4326 else project(src, 4326, cc)
+                for code in (src, dst):
+                    w, s_, e, n = pp(code).area_of_use.bounds
+                    w, e = max(w, -170.0), min(e, 170.0)
+                    for lon, lat in ll:
+                        if not (w <= lon <= e and s_ <= lat <= n):
+                            raise AssertionError(
+                                f"harness: long shape {src}->{dst} from {(x0, y0)} dir {di} leaves the valid "
+                                f"area of EPSG:{code}: lon/lat {(lon, lat)}")
     _checked = True
 
 
@@ -503,6 +516,16 @@ def _close(a, b, rel):
 # slice 3: to_crs between different CRSs
 # ---------------------------------------------------------------------------------------------
 TRES = (None, INF, 0.3, 1.0, 2.5, 10.0)  # finite values are multiples of the placement step
+FLAGS = ("plain", "check_and_fix", "wrapdateline", "wrapdateline+check_and_fix")
+
+
+def flag_kw(flag):
+    kw = {}
+    if "check_and_fix" in flag:
+        kw["check_and_fix"] = True
+    if "wrapdateline" in flag:
+        kw["wrapdateline"] = True
+    return kw
 
 
 def gen_to_crs(tier):
@@ -516,13 +539,14 @@ def gen_to_crs(tier):
             for pi in range(nplaces):
                 for kind in KINDS:
                     for sym in syms:
+                        # flags are full dimensions: well inside the valid areas and away from lon 180 every
+                        # clause must hold whatever check_and_fix / wrapdateline say (wrapdateline only acts
+                        # for a geographic destination)
+                        flags = FLAGS if dst == 4326 else FLAGS[:2]
                         for sp in spells:
                             for res in TRES + (("auto",) if kind in AREA_KINDS else ()):
-                                yield (di, pi, kind, sym, res, sp, "plain")
-                        # flags that must not matter well inside the valid areas, away from lon 180
-                        yield (di, pi, kind, sym, None, "EPSG", "check_and_fix")
-                        if dst == 4326:
-                            yield (di, pi, kind, sym, None, "EPSG", "wrapdateline")
+                                for flag in flags:
+                                    yield (di, pi, kind, sym, res, sp, flag)
 
     return gen
 
@@ -535,16 +559,12 @@ def run_to_crs(case):
     shp = make_shape(kind, sym, ox, oy, step)
     g = Geometry(shp, f"EPSG:{src}")
     res = res0 if res0 is None or res0 == "auto" else res0 * step
-    kw = {}
-    if flag == "check_and_fix":
-        kw["check_and_fix"] = True
-    if flag == "wrapdateline":
-        kw["wrapdateline"] = True
+    kw = flag_kw(flag)
     resclass = "none" if res is None else ("auto" if res == "auto" else ("inf" if res == INF else "finite"))
     r = R(outcome=f"{kind}:{resclass}:{flag}", nontrivial=kind != "empty")
     fail = Once(r)
     call = f"Geometry({shp.wkt}, EPSG:{src}).to_crs({sp}:{dst}, resolution={res!r}{', ' + flag if flag != 'plain' else ''})"
-    tag = f"to_crs:{kind}"
+    tag = f"to_crs:{kind}" if flag == "plain" else f"to_crs:{kind}:{flag}"
 
     if kind == "empty" and resclass in ("finite",):
         # see run_seg_kinds: observed, not judged
@@ -856,11 +876,233 @@ def run_churn(case):
     return r
 
 
+# ---------------------------------------------------------------------------------------------
+# slice: edges with MANY steps and non-round length / resolution ratios (judged with numpy)
+# ---------------------------------------------------------------------------------------------
+LK = (3.5, 110.25, 999.5, 1000.5, 1024.25, 2000.0, 2047.3, 5000.7)  # steps = edge length / resolution
+_S2 = math.sqrt(0.5)
+LDIRS = (("h", 1.0, 0.0), ("v", 0.0, 1.0), ("diag", _S2, _S2), ("oblique", 0.6, 0.8),
+         ("h", -1.0, 0.0), ("v", 0.0, -1.0), ("diag", -_S2, _S2), ("oblique", -0.8, 0.6))
+LAPIS = ("densify", "segmented:line", "segmented:polygon-hole")
+LPOS = ((0.0, 0.0), (-3000.5, 12345.25))  # start point in units of the resolution
+LRES = (1.0, 0.3)
+# to_crs(resolution=): (src, dst, resolution in source units, start points); the longest edge is 5000.7 steps
+LPAIRS = (
+    (3857, 4326, 200.0, ((0.0, 0.0), (1e6, -2e6))),
+    (4326, 3857, 0.005, ((0.0, 0.0), (100.0, -40.0))),
+    (3577, 4326, 200.0, ((0.0, -3e6), (3e5, -2.8e6))),
+)
+LSHAPES = ("line", "polygon-hole")
+
+
+def long_shape(shape, k, di, x0, y0, res):
+    """A path / polygon whose long edges run along direction LDIRS[di] and are k (and k/2) steps long."""
+    _, ux, uy = LDIRS[di]
+    nx, ny = -uy, ux
+    L = k * res
+    W = 40.5 * res
+
+    def P(a, b):
+        return (x0 + a * ux + b * nx, y0 + a * uy + b * ny)
+
+    if shape == "line":
+        return sg.LineString([P(0, 0), P(L, 0), P(L, 2.5 * res)])
+    outer = [P(0, 0), P(L, 0), P(L, W), P(0, W), P(0, 0)]
+    hole = [P(L / 4, W / 3), P(L / 4, 2 * W / 3), P(3 * L / 4, 2 * W / 3), P(3 * L / 4, W / 3), P(L / 4, W / 3)]
+    return sg.Polygon(outer, [hole])
+
+
+def gen_long(tier):
+    def gen():
+        for api in LAPIS:
+            for k in LK:
+                for di in range(len(LDIRS)):
+                    for pos in LPOS:
+                        for res in LRES:
+                            yield (api, k, di, pos, res, None, "plain")
+        for shape in LSHAPES:
+            for li, (_, dst, _, places) in enumerate(LPAIRS):
+                for flag in (("plain", "wrapdateline") if dst == 4326 else ("plain",)):
+                    for k in LK:
+                        for di in range(4 if tier != "thorough" else len(LDIRS)):
+                            for pi in range(len(places)):
+                                yield ("to_crs:" + shape, k, di, pi, None, li, flag)
+
+    return gen
+
+
+def project_np(src, dst, arr):
+    X, Y = fresh_tr(src, dst).transform(arr[:, 0].copy(), arr[:, 1].copy())
+    return np.column_stack([X, Y])
+
+
+def match_np(targets, out, tols):
+    """match_originals on an (m, 2) array: target k matches a row when both coordinates are within tols[k]
+    (0 = exact); first and last anchored, greedy first match in between."""
+    n, m = len(targets), len(out)
+
+    def hit(k, lo, hi):
+        seg = out[lo:hi]
+        ok = (np.abs(seg[:, 0] - targets[k][0]) <= tols[k]) & (np.abs(seg[:, 1] - targets[k][1]) <= tols[k])
+        nz = np.flatnonzero(ok)
+        return lo + int(nz[0]) if nz.size else None
+
+    if m == 0 or hit(0, 0, 1) is None:
+        return None, 0
+    if n == 1:
+        return ([0], 1) if m == 1 else (None, 0)
+    idx = [0]
+    j = 1
+    for k in range(1, n - 1):
+        h = hit(k, j, m - 1)
+        if h is None:
+            return None, k
+        idx.append(h)
+        j = h + 1
+    if j > m - 1 or hit(n - 1, m - 1, m) is None:
+        return None, n - 1
+    idx.append(m - 1)
+    return idx, n
+
+
+def judge_dense_path_np(fail, tag, ctxmsg, pid, src, out_src, idx, res, rel):
+    """Same clauses as judge_dense_path; out_src is an (m, 2) array in the source CRS."""
+    needed = added = 0
+    lim = res * (1 + REL)
+    for i in range(len(src) - 1):
+        p, q = src[i], src[i + 1]
+        mid = out_src[idx[i] + 1: idx[i + 1]]
+        L = math.hypot(q[0] - p[0], q[1] - p[1])
+        M = max(abs(p[0]), abs(p[1]), abs(q[0]), abs(q[1]))
+        tol = rel * (M + L)
+        if L > lim:
+            needed += 1
+        if mid.shape[0] == 0:
+            if L > lim:
+                fail(f"{tag}:edge-left-undensified",
+                     f"{ctxmsg} path {pid}: edge {p}->{q} has length {L!r} > resolution {res!r} "
+                     f"but no vertex was added on it")
+            continue
+        added += mid.shape[0]
+        seg = np.vstack([np.asarray([p]), mid, np.asarray([q])])
+        d = np.hypot(np.diff(seg[:, 0]), np.diff(seg[:, 1]))
+        w = int(np.argmax(d))
+        if not d[w] <= lim + 2 * tol:
+            fail(f"{tag}:piece-longer-than-resolution",
+                 f"{ctxmsg} path {pid}: edge {p}->{q} (length {L!r} = {L / res!r} steps) was split into {len(d)} "
+                 f"pieces; piece #{w} {tuple(seg[w].tolist())}->{tuple(seg[w + 1].tolist())} is {float(d[w])!r} long "
+                 f"> resolution {res!r}")
+        vx, vy = q[0] - p[0], q[1] - p[1]
+        wx, wy = mid[:, 0] - p[0], mid[:, 1] - p[1]
+        vv = vx * vx + vy * vy
+        t = np.clip((wx * vx + wy * vy) / vv, 0.0, 1.0) if vv > 0 else np.zeros(len(wx))
+        dist = np.hypot(wx - t * vx, wy - t * vy)
+        b = int(np.argmax(dist))
+        if not dist[b] <= tol:
+            fail(f"{tag}:added-vertex-off-edge",
+                 f"{ctxmsg} path {pid}: added vertex {tuple(mid[b].tolist())} is {float(dist[b])!r} away from its "
+                 f"edge {p}->{q} (tol {tol!r})")
+    return needed, added
+
+
+def judge_long(fail, tag, msg, shp_in, shp_out, res, src=None, dst=None):
+    """All clauses on (possibly very long) outputs. src/dst given: shp_out is in dst, judged back in src."""
+    if shp_out.geom_type != shp_in.geom_type:
+        fail(f"{tag}:type-changed", f"{msg}: {shp_in.geom_type} became {shp_out.geom_type}")
+        return 0, 0
+    pin, pout = paths(shp_in), paths(shp_out)
+    if signature(pin) != signature(pout):
+        fail(f"{tag}:structure-changed", f"{msg}: parts/rings {signature(pin)} became {signature(pout)}")
+        return 0, 0
+    needed = added = 0
+    for (pid, _, cin), (_, _, cout) in zip(pin, pout):
+        out = np.asarray(cout, dtype="float64").reshape(-1, 2)
+        if src is None:
+            idx, nfound = match_np(cin, out, [0.0] * len(cin))
+            rel = REL
+        else:
+            want = project(src, dst, cin)
+            idx, nfound = match_np(want, out, [REL * (max(abs(w[0]), abs(w[1])) + 1.0) for w in want])
+            rel = REL_RT
+        if idx is None:
+            fail(f"{tag}:original-vertex-lost",
+                 f"{msg} path {pid}: original vertex #{nfound} {cin[nfound]} not found (in order) in the output "
+                 f"({len(cout)} vertices)")
+            continue
+        if src is not None:
+            out = project_np(dst, src, out)
+            for i, j in enumerate(idx):
+                out[j] = cin[i]
+        n, a = judge_dense_path_np(fail, tag, msg, pid, cin, out, idx, res, rel)
+        needed += n
+        added += a
+    if src is None:
+        M = maxabs(pin)
+        li, lo = shp_in.length, shp_out.length
+        if not abs(lo - li) <= REL * (abs(li) + M):
+            fail(f"{tag}:length-changed", f"{msg}: length {li!r} became {lo!r}")
+        ai, ao = shp_in.area, shp_out.area
+        if not abs(ao - ai) <= REL * (abs(ai) + M * abs(li)):
+            fail(f"{tag}:area-changed", f"{msg}: area {ai!r} became {ao!r}")
+    return needed, added
+
+
+def run_long(case):
+    api, k, di, pos, res, li, flag = case
+    dcls = LDIRS[di][0]
+    r = R()
+    fail = Once(r)
+    if api.startswith("to_crs:"):
+        _selfcheck()
+        shape = api.split(":", 1)[1]
+        src, dst, res, places = LPAIRS[li]
+        x0, y0 = places[pos]
+        shp = long_shape(shape, k, di, x0, y0, res)
+        g = Geometry(shp, f"EPSG:{src}")
+        out = g.to_crs(f"EPSG:{dst}", res, **flag_kw(flag))
+        tag = f"to_crs:long-edge-{dcls}" if flag == "plain" else f"to_crs:long-edge-{dcls}:{flag}"
+        msg = (f"{shape} with edges of {k} and {k / 2} steps along {LDIRS[di]} from {(x0, y0)}: "
+               f"Geometry({shp.wkt[:200]}, EPSG:{src}).to_crs(EPSG:{dst}, resolution={res!r}"
+               f"{', ' + flag if flag != 'plain' else ''})")
+        if out.crs is None or out.crs.proj.to_epsg() != dst:
+            fail("to_crs:result-crs", f"{msg}: result crs is {out.crs}")
+        needed, added = judge_long(fail, tag, msg, shp, out.geom, res, src, dst)
+    else:
+        x0, y0 = pos[0] * res, pos[1] * res
+        shape = "line" if api == "densify" else api.split(":", 1)[1]
+        shp = long_shape(shape, k, di, x0, y0, res)
+        if api == "densify":
+            coords = list(shp.coords)
+            got = densify(list(coords), res)
+            tag = f"densify:long-edge-{dcls}"
+            msg = f"densify({coords}, {res!r}) [first edge: {k} steps along {LDIRS[di]}]"
+            out_shp = sg.LineString([tuple(c) for c in got]) if len(got) > 1 else sg.LineString()
+        else:
+            tag = f"segmented:long-edge-{dcls}"
+            msg = (f"{shape} with edges of {k} and {k / 2} steps along {LDIRS[di]}: "
+                   f"Geometry({shp.wkt[:200]}).segmented({res!r})")
+            o = Geometry(shp, "EPSG:3857").segmented(res)
+            if o.crs is None or str(o.crs) != "EPSG:3857":
+                fail("segmented:crs-changed", f"{msg}: crs became {o.crs}")
+            out_shp = o.geom
+        needed, added = judge_long(fail, tag, msg, shp, out_shp, res)
+    r.outcome = (f"long:{api}:{flag}:{'over-1000-steps' if k > 1000 else 'up-to-1000-steps'}:"
+                 f"{'added' if added else 'unchanged'}")
+    r.nontrivial = needed > 0
+    r.counts = {"long-edge-vertices-added": int(added)}
+    return r
+
+
 def slices(tier):
     return [
         e1.Slice("to_crs-after-churn", gen_churn(tier), run_churn,
                  "n in {40,150,420[,1300]} geometries each in its own projection converted in sequence (handles dropped / kept)",
                  shards=16),
+        e1.Slice("long-edges", gen_long(tier), run_long,
+                 "edges of {3.5, 110.25, 999.5, 1000.5, 1024.25, 2000, 2047.3, 5000.7} steps x 8 directions x 2 start "
+                 "points x 2 resolutions through densify(), line.segmented(), polygon-with-hole.segmented(); and "
+                 "{line, polygon-with-hole} x 3 CRS pairs x {plain, wrapdateline (geographic destination)} x steps x "
+                 "4 (thorough 8) directions x 2 start points through to_crs(resolution=)"),
         e1.Slice("densify-edges", gen_edges(tier), run_edges,
                  "all ordered vertex pairs of {-2,-1,0,1,2,5}^2 (incl. zero-length) x scale x offset x resolution; "
                  "densify() and line.segmented(); thorough adds all two-edge paths on {-1,0,2}^2"),
@@ -868,7 +1110,8 @@ def slices(tier):
                  "10 kinds x 8 symmetries x scale x offset x resolution x {no crs, crs}"),
         e1.Slice("to_crs", gen_to_crs(tier), run_to_crs,
                  "8 directed CRS pairs x placements inside both valid areas x kinds x symmetries x "
-                 "resolution {None, inf, 4 finite, auto (area>0)} x target spelling; plus check_and_fix / wrapdateline"),
+                 "resolution {None, inf, 4 finite, auto (area>0)} x target spelling x {check_and_fix} x {wrapdateline, "
+                 "geographic destination}"),
         e1.Slice("to_crs-same", gen_same(tier), run_same,
                  "3 CRSs x 6 spellings of the geometry's CRS x 6 spellings of the target x kinds x resolution"),
         e1.Slice("to_crs-nocrs", gen_nocrs(tier), run_nocrs,
